@@ -29,19 +29,39 @@ fn blank(kind: &str) -> Case {
 }
 
 fn judge_curve(case: &Case, l: &mut Local) {
+    // the nominal and the measured points in metres, and (for the shorter nominals) in microns and tens of kilometres
+    judge_curve_unit(case, 1.0, l);
+    if case.verts.len() <= 3 {
+        for u in [1e-6, 1e4] {
+            judge_curve_unit(case, u, l);
+        }
+    }
+}
+
+fn judge_curve_unit(case: &Case, u: f64, l: &mut Local) {
     let mk = || serde_json::to_value(case).unwrap();
-    let pts: Vec<Point2> = case.verts.iter().map(|c| gen::p2([c[0], c[1]], 1.0)).collect();
-    let c = match Curve2::from_points(&pts, 1e-9, case.force_closed) {
+    let pts: Vec<Point2> = case.verts.iter().map(|c| gen::p2([c[0], c[1]], u)).collect();
+    let c = match Curve2::from_points(&pts, 1e-9 * u, case.force_closed) {
         Ok(c) => c,
         Err(_) => return,
     };
+    if u != 1.0 {
+        l.bucket("curve deviations at another length unit");
+    }
     let v = c.points().to_vec();
     l.distinct(hash_of(&(&case.verts, case.force_closed)));
     l.sample(mk);
     let mut queries = Vec::new();
     for x in -2..=6 {
         for y in -2..=6 {
-            queries.push(Point2::new(x as f64 * 0.5, y as f64 * 0.5));
+            queries.push(Point2::new(x as f64 * 0.5 * u, y as f64 * 0.5 * u));
+        }
+    }
+    // measured points a hair off every vertex, not along an edge normal
+    for a in v.iter() {
+        for eps in [1e-7, 1e-4] {
+            queries.push(a + engeom::Vector2::new(0.6, 0.8) * (eps * u));
+            queries.push(a + engeom::Vector2::new(-0.8, 0.6) * (eps * u));
         }
     }
     for q in &queries {
@@ -58,14 +78,14 @@ fn judge_curve(case: &Case, l: &mut Local) {
         let n_edge = st.normal().into_inner();
         let off = q - st.point();
         let side = off.dot(&n_edge);
-        l.bucket(if best < 1e-9 { "measured point on the nominal" } else if side > 0.0 { "outward side" } else if side < 0.0 { "inward side" } else { "in line with the edge, beyond its end" });
+        l.bucket(if best < 1e-9 * u { "measured point on the nominal" } else if side > 0.0 { "outward side" } else if side < 0.0 { "inward side" } else { "in line with the edge, beyond its end" });
         l.outcome(hash_of(&(d.deviation > 0.0, d.deviation == 0.0)));
-        l.check("curve deviation magnitude equals the closest distance", "", (d.deviation.abs() - best).abs() <= 1e-9, mk, || format!("q {:?}: deviation {} distance {}", q, d.deviation, best));
-        if best > 1e-6 && side.abs() > 1e-9 {
+        l.check("curve deviation magnitude equals the closest distance", "", (d.deviation.abs() - best).abs() <= 1e-9 * u, mk, || format!("unit {:e} q {:?}: deviation {} distance {}", u, q, d.deviation, best));
+        if best > 1e-6 * u && side.abs() > 1e-9 * u {
             l.check("curve deviation is positive on the outward-normal side", "", (d.deviation > 0.0) == (side > 0.0), mk, || format!("q {:?}: deviation {} side {}", q, d.deviation, side));
         }
         let rec = d.surface.point + d.surface.normal.into_inner() * d.deviation;
-        l.check("reference point + normal * deviation reconstructs the measured point", "", d2(&rec, q) <= 1e-9 && d2(&d.actual_point(), q) <= 1e-9, mk, || format!("q {:?}: reconstructed {:?}", q, rec));
+        l.check("reference point + normal * deviation reconstructs the measured point", "", d2(&rec, q) <= 1e-9 * u && d2(&d.actual_point(), q) <= 1e-9 * u, mk, || format!("q {:?}: reconstructed {:?}", q, rec));
     }
     // whole-set variant with and without an arc-length interval
     let big_l = c.length();
@@ -76,7 +96,7 @@ fn judge_curve(case: &Case, l: &mut Local) {
         let mut ok = set.len() == keep.len();
         if ok {
             for (d, q) in set.iter().zip(keep.iter()) {
-                ok &= (d.deviation.abs() - poly_dist2(&v, q)).abs() <= 1e-9;
+                ok &= (d.deviation.abs() - poly_dist2(&v, q)).abs() <= 1e-9 * u;
             }
             let mx = set.iter().map(|d| d.deviation).fold(f64::NEG_INFINITY, f64::max);
             let mn = set.iter().map(|d| d.deviation).fold(f64::INFINITY, f64::min);
@@ -89,12 +109,25 @@ fn judge_curve(case: &Case, l: &mut Local) {
 }
 
 fn judge_mesh(case: &Case, l: &mut Local) {
+    judge_mesh_unit(case, 1.0, l);
+    if case.which < 6 {
+        for u in [1e-6, 1e4] {
+            judge_mesh_unit(case, u, l);
+        }
+    }
+}
+
+fn judge_mesh_unit(case: &Case, u: f64, l: &mut Local) {
     let mk = || serde_json::to_value(case).unwrap();
     let (v, f) = if case.which < 4 {
         c02::solid(["tetrahedron", "octahedron", "prism", "box"][case.which])
     } else {
         c02::height_field((case.which as u32 - 4) * 37 % 512, case.which as u32 % 2)
     };
+    let v: Vec<Point3> = v.iter().map(|p| Point3::from(p.coords * u)).collect();
+    if u != 1.0 {
+        l.bucket("mesh deviations at another length unit");
+    }
     let m = Mesh::new(v.clone(), f.clone(), false);
     l.distinct(hash_of(&("mesh", case.which)));
     let normals: Vec<Option<Vector3>> = f.iter().map(|t| tri_normal(&v[t[0] as usize], &v[t[1] as usize], &v[t[2] as usize])).collect();
@@ -103,7 +136,7 @@ fn judge_mesh(case: &Case, l: &mut Local) {
     for x in g {
         for y in g {
             for z in g {
-                queries.push(Point3::new(x, y, z));
+                queries.push(Point3::new(x * u, y * u, z * u));
             }
         }
     }
@@ -111,7 +144,7 @@ fn judge_mesh(case: &Case, l: &mut Local) {
     for a in v.iter() {
         for d in [Vector3::new(1.0, 0.0, 0.0), Vector3::new(0.0, 0.0, -1.0), Vector3::new(1.0, 1.0, 1.0).normalize(), Vector3::new(-1.0, 0.5, -0.25).normalize()] {
             for eps in [1e-7, 1e-4, 5e-4, 1e-2] {
-                queries.push(a + d * eps);
+                queries.push(a + d * (eps * u));
             }
         }
     }
@@ -127,7 +160,7 @@ fn judge_mesh(case: &Case, l: &mut Local) {
                     cps.push((fi, cp, d));
                     best = best.min(d);
                 }
-                let mins: Vec<&(usize, Point3, f64)> = cps.iter().filter(|c| (c.2 - best).abs() <= 1e-9).collect();
+                let mins: Vec<&(usize, Point3, f64)> = cps.iter().filter(|c| (c.2 - best).abs() <= 1e-9 * u).collect();
                 let one_normal = mins.iter().all(|c| match (normals[c.0], normals[mins[0].0]) {
                     (Some(a), Some(b)) => (a - b).norm() < 1e-9,
                     _ => false,
@@ -136,21 +169,21 @@ fn judge_mesh(case: &Case, l: &mut Local) {
                 let dl = m.measure_point_deviation(&q, DistMode::ToPlane);
                 l.outcome(hash_of(&(dp.value() > 0.0, one_normal)));
                 l.bucket(if one_normal { "nearest face unique up to normal" } else { "nearest point on an edge or vertex" });
-                l.check("mesh point-mode deviation magnitude equals the distance", "", if best < 2e-6 { dp.value().abs() <= best + 1e-9 } else { (dp.value().abs() - best).abs() <= 1e-9 }, mk, || format!("q {:?}: {} vs {}", q, dp.value(), best));
-                if best > 1e-6 {
+                l.check("mesh point-mode deviation magnitude equals the distance", "", (dp.value().abs() - best).abs() <= 1e-9 * u, mk, || format!("unit {:e} q {:?}: {} vs {}", u, q, dp.value(), best));
+                if best > 1e-12 * u {
                     let rec = dp.a + dp.direction.into_inner() * dp.value();
-                    l.check("mesh point mode: a + direction * value reconstructs the measured point", "", d3(&rec, &q) <= 1e-9 && d3(&dp.b, &q) <= 1e-12, mk, || format!("q {:?}: {:?}", q, rec));
+                    l.check("mesh point mode: a + direction * value reconstructs the measured point", "", d3(&rec, &q) <= 1e-9 * u && d3(&dp.b, &q) <= 1e-12 * u, mk, || format!("q {:?}: {:?}", q, rec));
                 }
                 if one_normal {
                     let n = normals[mins[0].0].unwrap();
                     let nv = n.dot(&(q - mins[0].1));
-                    l.check("mesh plane-mode deviation is the normal component", "", (dl.value() - nv).abs() <= 1e-9, mk, || format!("q {:?}: {} vs n.v {}", q, dl.value(), nv));
-                    if nv.abs() > 1e-9 && best > 1e-6 {
+                    l.check("mesh plane-mode deviation is the normal component", "", (dl.value() - nv).abs() <= 1e-9 * u, mk, || format!("q {:?}: {} vs n.v {}", q, dl.value(), nv));
+                    if nv.abs() > 1e-9 * u && best > 1e-9 * u {
                         l.check("mesh deviation is positive on the outward side", "", (dp.value() > 0.0) == (nv > 0.0) && (dl.value() > 0.0) == (nv > 0.0), mk, || format!("q {:?}: point {} plane {} n.v {}", q, dp.value(), dl.value(), nv));
                     }
                 } else {
                     // any adjacent face's normal component is acceptable
-                    let ok = mins.iter().any(|c| normals[c.0].map(|n| (n.dot(&(q - c.1)) - dl.value()).abs() <= 1e-9).unwrap_or(false));
+                    let ok = mins.iter().any(|c| normals[c.0].map(|n| (n.dot(&(q - c.1)) - dl.value()).abs() <= 1e-9 * u).unwrap_or(false));
                     l.check("mesh plane-mode deviation is the normal component of an adjacent face", "", ok, mk, || format!("q {:?}: {}", q, dl.value()));
                 }
             }
@@ -638,9 +671,9 @@ pub fn judge(case: &Case, l: &mut Local) {
 
 pub fn run(tier: Tier) -> i32 {
     let mut cx = Ctx::new("C16", tier, "model_checking");
-    cx.rule = "MC: deviation set = every push history of length <= 5 over {-2,-1,0,0.5,3} (repeats give ties) from default() and from new(v) for every v of length <= 2, state key = contents + identity of the reported extremes; point cloud = every history of append (4 presence combinations), merge (4 flavours x sizes 0..2), index selection (all lists of <= 2 indices) up to depth 3-4 against a Vec model, rejected operations must change nothing. EX: deviations of a 9x9 half-integer query grid from every lattice curve with <= 4 vertices (with/without arc-length interval) and from 12 meshes (7^3 grid, both modes); directed distances over lattice pairs x 4 directions; every tolerance table of 1..4 breakpoints from {0,1,1,2.5,4} x queries at, one ulp around, between, below and beyond the breakpoints. distinct = distinct canonical states + distinct entities".into();
-    let dev_depth = 5;
-    let cloud_depth = tier.pick(3, 4);
+    cx.rule = "MC: deviation set = every push history of length <= 5 (thorough: 6) over {-2,-1,0,0.5,3} (repeats give ties) from default() and from new(v) for every v of length <= 2, state key = contents + identity of the reported extremes; point cloud = every history of append (4 presence combinations), merge (4 flavours x sizes 0..2), index selection (all lists of <= 2 indices) up to depth 3 (thorough: 5) against a Vec model, rejected operations must change nothing. EX: deviations of a 9x9 half-integer query grid, and of points 1e-7 and 1e-4 off every vertex, from every lattice curve with <= 4 vertices (with/without arc-length interval) and from 12 meshes (7^3 grid, both modes), the shorter curves and six of the meshes also in microns and tens of kilometres; directed distances over lattice pairs x 4 directions; every tolerance table of 1..4 breakpoints from {0,1,1,2.5,4} x queries at, one ulp around, between, below and beyond the breakpoints. distinct = distinct canonical states + distinct entities".into();
+    let dev_depth = tier.pick(5, 6);
+    let cloud_depth = tier.pick(3, 5);
     cx.bounds = json!({"devset_history": dev_depth, "devset_init_len": 2, "cloud_depth": cloud_depth, "curve_seq_len": tier.pick(3, 4)});
     cx.require(&["deviation set: non-initial state", "deviation set: ties among the extremes", "deviation set: empty", "point cloud: non-initial state", "point cloud: accepted operation", "point cloud: rejected operation", "outward side", "inward side", "measured point on the nominal", "nearest face unique up to normal", "nearest point on an edge or vertex", "query below the start", "query beyond the end", "query inside the table"]);
     cx.assume("sign clauses are judged only where the offset has a non-zero normal component; at mesh edges/vertices the plane-mode value may be the normal component of any adjacent face (see the C03 finding)");
